@@ -22,6 +22,7 @@ type coreModel struct {
 	top, sink, block, stmt, ret, let, expr *ssa.Function
 	topInfo                                *FuncInfo
 	curStmtIdx                             int
+	canon                                  map[*ssa.Function]bool
 }
 
 // inBlockStmtEval: the statement evaluator the block evaluator calls.
@@ -62,26 +63,53 @@ func (w *World) coreModel() *coreModel {
 	return m
 }
 
-// inline: compiler methods that are not evaluators of their own.
+// canonical: the evaluator's fixed points -- the dispatchers, the per-node
+// evaluators the expression dispatcher hands over to, the sink, the predicate,
+// the user-function call. Everything else in the root package that the
+// evaluator calls statically is a helper and is walked in line.
+func (m *coreModel) canonicalSet() map[*ssa.Function]bool {
+	if m.canon != nil {
+		return m.canon
+	}
+	m.canon = map[*ssa.Function]bool{}
+	for _, f := range []*ssa.Function{m.top, m.sink, m.block, m.stmt, m.ret, m.let, m.expr} {
+		if f != nil {
+			m.canon[f] = true
+		}
+	}
+	if m.expr != nil {
+		for _, b := range m.expr.Blocks {
+			for _, ins := range b.Instrs {
+				if c, ok := ins.(*ssa.Call); ok {
+					if cal := c.Call.StaticCallee(); cal != nil && m.w.isCompilerMethod(cal) && m.w.isNodeEvaluator(cal) {
+						m.canon[cal] = true
+					}
+				}
+			}
+		}
+	}
+	if t := m.w.truthyMethod(); t != nil {
+		m.canon[m.w.SSAFunc(t)] = true
+	}
+	if u := m.w.userFunctionEval(); u != nil {
+		m.canon[m.w.SSAFunc(u)] = true
+	}
+	return m.canon
+}
+
+// inline: helpers of the evaluator (root package, no receiver or the evaluator as receiver) that are not canonical.
 func (m *coreModel) inline(caller, callee *ssa.Function) bool {
-	if !m.w.isCompilerMethod(callee) {
+	if callee.Pkg == nil || m.top == nil || callee.Pkg != m.top.Pkg {
 		return false
 	}
-	for _, f := range []*ssa.Function{m.top, m.sink, m.block, m.stmt, m.ret, m.let, m.expr} {
-		if callee == f {
-			return false
-		}
+	if callee.Signature.Recv() != nil && !m.w.isCompilerMethod(callee) {
+		return false
 	}
-	// per-node evaluators take a pointer to a concrete node
-	if callee.Signature.Params().Len() == 1 {
-		if pt, ok := callee.Signature.Params().At(0).Type().(*types.Pointer); ok && declaredIn(pt.Elem(), astPath) {
-			return false
-		}
+	if m.canonicalSet()[callee] {
+		return false
 	}
-	if obj, ok := callee.Object().(*types.Func); ok {
-		if _, isWrapper := m.w.operandWrappers()[obj]; isWrapper {
-			return false
-		}
+	if callee.Object() != nil && callee.Object().Exported() {
+		return false
 	}
 	return true
 }
@@ -542,7 +570,20 @@ func (m *coreModel) checkFold(p *pwPath, kind string, stmtCall ssa.Value, base s
 		if !ok || len(els) != 1 {
 			return "the return arm must append the statement's value to the accumulated output"
 		}
-		if e, ok := p.resolve(stripIface(p.resolve(els[0]))).(*ssa.Extract); !ok || e.Tuple != stmtCall || e.Index != 0 {
+		src := p.resolve(stripIface(p.resolve(els[0])))
+		// the same value seen through the exit interface (i.(exitIface)) is still the statement's value
+		for i := 0; i < 3; i++ {
+			if e2, ok := src.(*ssa.Extract); ok && e2.Index == 0 {
+				if ta, ok := e2.Tuple.(*ssa.TypeAssert); ok {
+					if _, isIface := ta.AssertedType.Underlying().(*types.Interface); isIface {
+						src = p.resolve(stripIface(p.resolve(ta.X)))
+						continue
+					}
+				}
+			}
+			break
+		}
+		if e, ok := src.(*ssa.Extract); !ok || e.Tuple != stmtCall || e.Index != 0 {
 			return "the return arm must append the statement's value to the accumulated output"
 		}
 	default:
@@ -688,12 +729,13 @@ func coreReturnRule(r *Run, rule string) {
 			okAll, why = false, "the return object's Value cannot be read"
 			continue
 		}
-		app, ok := p.resolve(v).(*ssa.Call)
-		if !ok {
-			okAll, why = false, "the return object's Value is not the evaluated value"
-			continue
+		// Value is append(<empty>, value) or the literal []interface{}{value}
+		var els []ssa.Value
+		if app, isCall := p.resolve(v).(*ssa.Call); isCall && len(app.Call.Args) > 0 {
+			els, ok = p.sliceElems(app.Call.Args[len(app.Call.Args)-1])
+		} else {
+			els, ok = p.sliceElems(v)
 		}
-		els, ok := p.sliceElems(app.Call.Args[len(app.Call.Args)-1])
 		if !ok || len(els) != 1 {
 			okAll, why = false, "the return object's Value is not exactly the evaluated value"
 			continue
